@@ -122,6 +122,10 @@ var c04Specs = []c04Spec{
 	{Name: "json-text", Comp: "off", JSON: true, NetConn: frame.OpText, Build: func(b *c04Builder) {
 		b.begin(frame.OpText, false, []byte(`12345`)).part(2).rest() // every fragment prefix is itself valid JSON
 		b.begin(frame.OpText, false, []byte(`{"a":[1,2]}`)).rest()
+		// white space after the value, as encoders that end documents with a newline send it:
+		// the value is complete before the message is
+		b.begin(frame.OpText, false, []byte("{\"b\":[3]}\n")).rest()
+		b.begin(frame.OpText, false, []byte("[4,5] \n")).part(5).rest()
 		b.begin(frame.OpText, false, []byte(`7`)).part(1).rest() // empty final fragment
 		b.begin(frame.OpText, false, []byte(`"s"`)).part(0).rest()
 		b.begin(frame.OpText, false, []byte(`[1,2]`)).part(3).ctl(frame.OpPing, []byte("k")).rest()
